@@ -52,6 +52,10 @@ def gen_pair(rng, tier, force_small=None):
         take = rng.integers(0, m, size=n)
         B = A[take] + (rng.integers(-1, 2, size=(n, 2)) * scale * float(rng.choice([0, 1, 0.25])))
         B[:, 1] = np.maximum(B[:, 1], B[:, 0])
+    if rng.random() < 0.15:
+        A = gen.specialize(rng, A, scale); B = gen.specialize(rng, B, scale)
+    if rng.random() < 0.15:
+        B = gen.entangle(rng, A, B)
     if m >= 2 and rng.random() < 0.12:        # same births and same deaths, paired differently (fast paths comparing columns)
         B = gen.repaired(rng, A)
         if rng.random() < 0.3 and len(B) > 2:
